@@ -337,10 +337,13 @@ class Executor:
 
             q = None
             try:
-                q = attrs.evolve(obj, ply=obj.ply + int(op.get("dply", 1)))
+                dply = int(op.get("dply", 1))
+                if obj.ply + dply < 0:
+                    dply = 1  # a ply is a natural number: there is no position before the first
+                q = attrs.evolve(obj, ply=obj.ply + dply)
                 rec["impl"] = "ok " + ser.pos_str(q)
                 t = self.texts[i].split(" ")
-                t[5] = str(int(t[5]) + int(op.get("dply", 1)))
+                t[5] = str(int(t[5]) + dply)
                 rec["want"] = "ok " + " ".join(t)
             except Exception as e:
                 rec["impl"] = "crash " + type(e).__name__
